@@ -314,7 +314,7 @@ func runC01(outDir string, seed int64, tier string) {
 	f := feat{nestedOr: true, topOr: true, callN: true, arith: true}
 	sel := selectionPrograms()
 	wide := widePrograms()
-	deep := deepPrograms(0, tier)
+	deep := append(deepPrograms(0, tier), metaCallPrograms()...)
 	runProgProperty("C01", outDir, seed, tier, func(r *rng, i int) *progCase {
 		if i < len(deep) {
 			return deep[i]
@@ -328,7 +328,7 @@ func runC01(outDir string, seed int64, tier string) {
 		}
 		return &progCase{prog: genProgram(r, f)}
 	}, 1000+len(deep), 8000+len(deep),
-		"deep goals (a recursion of depth 600, thorough also 40 and 1100, after an older choice point, bare, under call/1 and in a disjunction); wide goals (two-alternative disjunctions and call/N goals with 7-11 distinct free variables, one after the other); clause selection exhaustively over small shapes (18 head shapes x 30 argument shapes x 3 positions: closed lists of length 0-3, list patterns, string-backed lists, partial lists of every prefix length, atoms, integers, compounds, repeated variables); then random programs: 1-5 predicates of arity 0-3 with 1-4 clauses, nested terms/lists/partial lists in heads, bodies with conjunction, nested and top-level disjunction (no cut), call/N, arithmetic, between/3, member/2 and a library with direct and mutual recursion; queries of 1-3 goals; up to 12 answers compared as sequences up to variable renaming; distinct by program+query text; non-trivial = at least one answer or an error")
+		"deep goals (a recursion of depth 600, thorough also 40 and 1100, after an older choice point, bare, under call/1 and in a disjunction); one goal term reaching call/1, call/N, \\+, findall/3, once/1, a disjunction or a variable goal through a clause variable and executed again after backtracking has rebound its inner variable; wide goals (two-alternative disjunctions and call/N goals with 7-11 distinct free variables, one after the other); clause selection exhaustively over small shapes (18 head shapes x 30 argument shapes x 3 positions: closed lists of length 0-3, list patterns, string-backed lists, partial lists of every prefix length, atoms, integers, compounds, repeated variables); then random programs: 1-5 predicates of arity 0-3 with 1-4 clauses, nested terms/lists/partial lists in heads, bodies with conjunction, nested and top-level disjunction (no cut), call/N, arithmetic, between/3, member/2 and a library with direct and mutual recursion; queries of 1-3 goals; up to 12 answers compared as sequences up to variable renaming; distinct by program+query text; non-trivial = at least one answer or an error")
 }
 
 func runC03(outDir string, seed int64, tier string) {
@@ -364,7 +364,7 @@ func runC04(outDir string, seed int64, tier string) {
 		maxLen = 4
 	}
 	skel := skeletonBodies([]string{"m", "x", "k", "K", "e", "!"}, maxLen)
-	directed := append(deepPrograms(2, tier), rethrowPrograms()...)
+	directed := append(append(deepPrograms(2, tier), rethrowPrograms()...), exitedThenCutPrograms()...)
 	runProgProperty("C04", outDir, seed, tier, func(r *rng, i int) *progCase {
 		if i < len(directed) {
 			return directed[i]
@@ -375,7 +375,7 @@ func runC04(outDir string, seed int64, tier string) {
 		}
 		return &progCase{prog: genProgram(r, f)}
 	}, 1000+len(directed), 8000+len(directed),
-		"deep goals under catch/3 (an error raised 600 levels down, caught, not caught, caught outside an older choice point); caught balls that Recovery or the continuation instantiates and throws again (one to three levels, after backtracking into Recovery, not caught again); exhaustive control skeletons; random programs as for C03 plus catch/3 and throw/1 at any nesting with balls that do or do not unify with the catchers and share variables with the goal, built-in errors (type, instantiation, evaluation), throws after a catch/3 goal has exited and after backtracking into it; answers and the final error term compared; distinct by program+query text; non-trivial = at least one answer or an error")
+		"an exited catch/3 (deterministic, with a choice point, nested) followed by a goal that cuts (a user predicate with a cut, once/1, if-then-else, call((G,!)), \\+) and then an error, under an outer catch/3, in the query and in a clause body; deep goals under catch/3 (an error raised 600 levels down, caught, not caught, caught outside an older choice point); caught balls that Recovery or the continuation instantiates and throws again (one to three levels, after backtracking into Recovery, not caught again); exhaustive control skeletons; random programs as for C03 plus catch/3 and throw/1 at any nesting with balls that do or do not unify with the catchers and share variables with the goal, built-in errors (type, instantiation, evaluation), throws after a catch/3 goal has exited and after backtracking into it; answers and the final error term compared; distinct by program+query text; non-trivial = at least one answer or an error")
 }
 
 // c11BoundCaret: V^Goal where, at the time of the call, V is bound -- aliased to a fresh variable
@@ -474,6 +474,10 @@ func runC11(outDir string, seed int64, tier string) {
 			if r.coin(0.15) {
 				inst = glist([]*G{gv(2)}, gv(3))
 			}
+			closedInst := 0
+			if which != "findall" && r.coin(0.3) {
+				closedInst = 1 + r.intn(3) // the Instances argument is a closed list of 1-3 variables or values
+			}
 			tmpl := p.term(1)
 			if which == "setof" {
 				// ground template instances (see the generator of setof goals)
@@ -487,6 +491,29 @@ func runC11(outDir string, seed int64, tier string) {
 					wrapped = gc("^", goal.Args[0], wrapped)
 				}
 				goal = wrapped
+			}
+			if closedInst > 0 && which == "setof" {
+				// solutions with duplicates, the Instances argument already a closed list of the duplicate-free length
+				dup := p.smallList()
+				var es []*G
+				for t := dup; t.K == 'c' && t.S == "." && len(t.Args) == 2; t = t.Args[1] {
+					es = append(es, t.Args[0])
+				}
+				es = append(es, es...)
+				goal = gc("member", gv(0), glist(es, nil))
+				var vs []*G
+				for i := 0; i < closedInst; i++ {
+					vs = append(vs, gv(5+i))
+				}
+				pc.prog.query = gc(which, gv(0), goal, glist(vs, nil))
+				return pc
+			}
+			if closedInst > 0 {
+				var vs []*G
+				for i := 0; i < closedInst; i++ {
+					vs = append(vs, gv(5+i))
+				}
+				inst = glist(vs, nil)
 			}
 			pc.prog.query = gc(which, tmpl, goal, inst)
 			if which != "findall" && goal.K == 'c' && goal.S == "^" && r.coin(0.45) {
